@@ -133,13 +133,20 @@ def cut_gates(
     if not inplace:
         circuit = circuit.copy()
 
+    # Build every replacement before applying any, so that an unsupported gate
+    # leaves the circuit untouched even when ``inplace=True``.
     bases = []
+    replacements = []
     for gate_id in gate_ids:
         gate = circuit.data[gate_id]
         qubit_indices = [circuit.find_bit(qubit).index for qubit in gate.qubits]
         qpd_gate = TwoQubitQPDGate.from_instruction(gate.operation)
         bases.append(qpd_gate.basis)
-        circuit.data[gate_id] = CircuitInstruction(qpd_gate, qubits=qubit_indices)
+        replacements.append(
+            (gate_id, CircuitInstruction(qpd_gate, qubits=qubit_indices))
+        )
+    for gate_id, new_instruction in replacements:
+        circuit.data[gate_id] = new_instruction
 
     return circuit, bases
 
